@@ -20,6 +20,11 @@ pub fn eval(sc: &Scenario) -> CaseResult {
     if sc.peers.iter().any(|p| p.use_wait) {
         r.classes.push("advance_frame_with_wait");
     }
+    let mid: u64 = out.peers.iter().map(|p| p.midwait_deliveries).sum();
+    if mid > 0 {
+        r.classes.push("midwait_delivery");
+    }
+    r.counters.push(("wait_calls_with_a_delivery_after_the_first_poll", mid));
     r.counters.push(("max_gap_over_confirmed", out.peers.iter().map(|p| p.max_gap.max(0) as u64).max().unwrap_or(0)));
     r.counters.push(("first_sims_at_window_limit", eq));
     r.counters.push(("lockstep_stalls", ls));
@@ -42,9 +47,11 @@ pub fn gen(tier: Tier) -> BoxedStrategy<Scenario> {
             if both {
                 sc.ops.push(Op::Outage { tick, from: to, to: from, len_ms: len });
             }
-            if sc.max_pred == 0 && w % 3 == 0 {
-                for p in sc.peers.iter_mut() {
-                    p.use_wait = true;
+            if sc.max_pred == 0 && w % 3 != 2 {
+                // the wait helper on every peer, or (w % 3 == 1) on a seeded non-empty subset of them
+                let mask = if w % 3 == 0 { 0xff } else { ((w >> 2) | 1) as u32 };
+                for (i, p) in sc.peers.iter_mut().enumerate() {
+                    p.use_wait = (mask >> (i % 6)) & 1 == 1;
                 }
             }
             sc
